@@ -97,6 +97,12 @@ def get_member(obj, member: 'IdentifierToken'):
         raise ParseError(f"member name expected, instead found {member}", member.offset)
     if member.name.startswith('_'):
         raise ParseError(f"Cannot read protected and private member variables: {obj}.{member.name}", member.offset)
+    if member.name in ('format', 'format_map') and (
+            isinstance(obj, str) or (isinstance(obj, type) and issubclass(obj, str))
+    ):
+        # Format strings can traverse attributes ("{0._private}".format(obj)), bypassing the check above
+        raise ParseError(f"String formatting is not permitted because it can read protected and private member "
+                         f"variables: {obj!r}.{member.name}", member.offset)
     return getattr(obj, member.name)
 
 
